@@ -498,6 +498,12 @@ class LSym:
             if pred == "ne": return Cond("const", ka != kb)
             if ka[0] == kb[0]:
                 return Cond("const", {"ult": ka[1] < kb[1], "ule": ka[1] <= kb[1], "ugt": ka[1] > kb[1], "uge": ka[1] >= kb[1]}[pred])
+            if isinstance(a, Ptr) and isinstance(b, Ptr) and "null" not in (a.r, b.r):
+                # pointers into DIFFERENT objects are only ordered by overlap pre-condition checks (copy_nonoverlapping under debug assertions):
+                # distinct objects are disjoint whatever their order, so the fake base addresses (distinct, 2^24 apart) decide it
+                xa = self.fake_bases.setdefault(a.r, (len(self.fake_bases) + 1) << 24) + a.o
+                xb = self.fake_bases.setdefault(b.r, (len(self.fake_bases) + 1) << 24) + b.o
+                return Cond("const", {"ult": xa < xb, "ule": xa <= xb, "ugt": xa > xb, "uge": xa >= xb}[pred])
             raise Unsupported("ordering of pointers into different objects")
         w = int_width(ty)
         if isinstance(a, XorNode) and pred in ("eq", "ne"):
